@@ -250,14 +250,16 @@ def run(tier, seed, replay):
         except Exception as e:      # noqa
             v("liouvillian-input:raises", f"steadystate(L) raises {type(e).__name__}: {e}"[:200], {"system": kind})
         # pseudo inverse: defining relations with Q = 1 - |rho>><<1|
-        for fmt, method, w in (("dense", "direct", None), ("csr", "splu", None), ("csr", "splu", 0.5), ("dense", "solve", 0.3), ("csr", "spsolve", 0.7), ("dense", "pinv", None)):
+        for fmt, method, w, kw in (("dense", "direct", None, {}), ("csr", "splu", None, {}), ("csr", "splu", 0.5, {}), ("dense", "solve", 0.3, {}), ("csr", "spsolve", 0.7, {}),
+                                   ("dense", "pinv", None, {}), ("csr", "splu", 0.5, {"use_rcm": True}), ("csr", "pinv", None, {"use_rcm": True}), ("dense", "splu", 0.4, {"use_rcm": True}),
+                                   ("csr", "scipy", None, {"use_rcm": True}), ("csr", "direct", 0.6, {"sparse": True, "use_rcm": True}), ("dia", "splu", 0.3, {}), ("csr", "spilu", 0.5, {})):
             Lf = Lq.to(fmt)
             Lbefore = Lf.full().copy()
             try:
                 with warnings.catch_warnings():
                     warnings.simplefilter("ignore")
-                    Rq = qutip.pseudo_inverse(Lf, w=w, method=method)
-                    Rq2 = qutip.pseudo_inverse(Lf, w=w, method=method)
+                    Rq = qutip.pseudo_inverse(Lf, w=w, method=method, **kw)
+                    Rq2 = qutip.pseudo_inverse(Lf, w=w, method=method, **kw)
             except Exception as e:
                 rep.count("pinv-raises=" + type(e).__name__)
                 continue
@@ -269,7 +271,8 @@ def run(tier, seed, replay):
             Ls = Lbefore + 1j * (w or 0.0) * np.eye(n2)
             Rm = Rq.full()
             scale = max(1.0, np.abs(Rm).max())
-            data = {"system": kind, "format": fmt, "method": method, "w": w}
+            data = {"system": kind, "format": fmt, "method": method, "w": w, "options": kw}
+            method = method + ("+rcm" if kw.get("use_rcm") else "")
             if np.abs(Ls @ Rm - Qm).max() > 1e-5 * scale or np.abs(Rm @ Ls - Qm).max() > 1e-5 * scale:
                 v(f"pseudo-inverse:relations:{method}", f"pseudo_inverse({fmt}, {method}, w={w}) on a {kind} system: |L R - Q| = {np.abs(Ls @ Rm - Qm).max():.1e}", data)
             if np.abs(Pm @ Rm).max() > 1e-6 * scale or np.abs(Rm @ Pm).max() > 1e-6 * scale:
